@@ -18,18 +18,26 @@ from syntax import json_output
 """Parsing for simple imperative programs."""
 
 grammar = r"""
-    ?expr: CNAME -> var_expr
+    ?atom: CNAME -> var_expr
         | INT -> num_expr
-        | expr "+" expr -> plus_expr
-        | expr "*" expr -> times_expr
+        | "(" expr ")"
 
-    ?cond: expr "==" expr -> eq_cond
+    ?times: times "*" atom -> times_expr | atom   // Multiplication: priority 70
+
+    ?expr: expr "+" times -> plus_expr | times    // Addition: priority 65
+
+    ?atom_cond: expr "==" expr -> eq_cond
         | expr "!=" expr -> ineq_cond
         | expr "<=" expr -> less_eq_cond
         | expr "<" expr -> less_cond
-        | cond "&" cond -> conj_cond
-        | cond "|" cond -> disj_cond
         | "true" -> true_cond
+        | "(" cond ")"
+
+    ?conj: atom_cond "&" conj -> conj_cond | atom_cond   // Conjunction: priority 35
+
+    ?disj: conj "|" disj -> disj_cond | conj      // Disjunction: priority 30
+
+    ?cond: disj
 
     ?cmd: "skip" -> skip_cmd
         | CNAME ":=" expr -> assign_cmd
